@@ -63,27 +63,6 @@ Qed.
 
 (* every question the reference reads (name of at most 256 octets, at most 254 pointers, QDCOUNT 1,
    at least one label) is decoded with the same name, type, class and end offset *)
-Theorem question_complete_gen p index buffer d ls n t c : wf p -> bytes_ok (arr p) -> (12 <= len p)%nat ->
-  u16_at (view p) 4 = Some 1 ->
-  name_at_d (view p) d index ls n -> (d <= 254)%nat -> (wire_len ls <= 256)%nat ->
-  (index + 6 <= len p)%nat ->
-  u16_at (view p) n = Some t -> u16_at (view p) (n + 2) = Some c ->
-  decodeQuestion p (Z.of_nat index) buffer = Ok (mkQ (dotted ls) t c, (n + 4)%nat).
-Proof.
-  intros Hwf Hok H12 Hqd Hna Hd Hw Hn2 Ht Hc. unfold decodeQuestion. pose proof Hwf as Hwf'. unfold wf in Hwf'.
-  rewrite be16_at_ok by lia. cbn [bind].
-  apply u16_at_view in Hqd as [_ Hqd]; auto. rewrite Hqd. cbn [negb N.eqb Pos.eqb].
-  apply u16_at_view in Ht as [Lt Ht]; auto. apply u16_at_view in Hc as [Lc Hc]; auto.
-  destruct (Z.ltb_spec (Z.of_nat (len p)) (Z.of_nat index + 6)); [lia|].
-  unfold decodeNameZ. destruct (Z.leb_spec (Z.of_nat (len p)) (Z.of_nat index)); [lia|].
-  destruct (Z.ltb_spec (Z.of_nat index) 0); [lia|]. rewrite Nat2Z.id.
-  destruct (name_complete p d index ls n (buf_of buffer) Hwf Hok Hna Hd Hw) as (b' & Hr). rewrite Hr.
-  cbn [bind fst snd]. destruct (Nat.ltb_spec (len p) (n + 4)); [lia|].
-  rewrite !be16_at_ok by lia. cbn [bind]. rewrite Ht.
-  replace (n + 2 + 1)%nat with (n + 3)%nat in Hc by lia.
-  replace (n + 2 + 1)%nat with (n + 3)%nat by lia. rewrite Hc. reflexivity.
-Qed.
-
 (* the end of a name lies behind its start: 1 byte for the root, at least 2 for anything else *)
 Lemma name_at_d_next msg d off ls n : name_at_d msg d off ls n -> (off + 1 <= n)%nat /\ (ls <> [] -> off + 2 <= n)%nat.
 Proof.
@@ -93,17 +72,35 @@ Proof.
   - split; [lia|]. intros _. lia.
 Qed.
 
-Theorem question_complete p index buffer d ls n t c : wf p -> bytes_ok (arr p) -> (12 <= len p)%nat ->
+Theorem question_complete_gen p index buffer d ls n t c : wf p -> bytes_ok (arr p) -> (12 <= len p)%nat ->
   u16_at (view p) 4 = Some 1 ->
-  name_at_d (view p) d index ls n -> (d <= 254)%nat -> (wire_len ls <= 256)%nat -> ls <> [] ->
+  name_at_d (view p) d index ls n -> (d <= 254)%nat -> (wire_len ls <= 256)%nat ->
   u16_at (view p) n = Some t -> u16_at (view p) (n + 2) = Some c ->
   decodeQuestion p (Z.of_nat index) buffer = Ok (mkQ (dotted ls) t c, (n + 4)%nat).
 Proof.
-  intros Hwf Hok H12 Hqd Hna Hd Hw Hne Ht Hc.
-  apply question_complete_gen with (d := d); auto.
-  destruct (name_at_d_next _ _ _ _ _ Hna) as [_ Hn2]. specialize (Hn2 Hne).
-  apply u16_at_view in Hc as [Lc _]; auto. lia.
+  intros Hwf Hok H12 Hqd Hna Hd Hw Ht Hc.
+  destruct (name_at_d_next _ _ _ _ _ Hna) as [Hn1 _]. unfold decodeQuestion. pose proof Hwf as Hwf'. unfold wf in Hwf'.
+  rewrite be16_at_ok by lia. cbn [bind].
+  apply u16_at_view in Hqd as [_ Hqd]; auto. rewrite Hqd. cbn [negb N.eqb Pos.eqb].
+  apply u16_at_view in Ht as [Lt Ht]; auto. apply u16_at_view in Hc as [Lc Hc]; auto.
+  destruct (Z.ltb_spec (Z.of_nat (len p)) (Z.of_nat index + 5)); [lia|].
+  unfold decodeNameZ. destruct (Z.leb_spec (Z.of_nat (len p)) (Z.of_nat index)); [lia|].
+  destruct (Z.ltb_spec (Z.of_nat index) 0); [lia|]. rewrite Nat2Z.id.
+  destruct (name_complete p d index ls n (buf_of buffer) Hwf Hok Hna Hd Hw) as (b' & Hr). rewrite Hr.
+  cbn [bind fst snd]. destruct (Nat.ltb_spec (len p) (n + 4)); [lia|].
+  rewrite !be16_at_ok by lia. cbn [bind]. rewrite Ht.
+  replace (n + 2 + 1)%nat with (n + 3)%nat in Hc by lia.
+  replace (n + 2 + 1)%nat with (n + 3)%nat by lia. rewrite Hc. reflexivity.
 Qed.
+
+(* kept under its first name: the hypothesis "at least one label" is no longer needed since the
+   root-name question is decoded too (repair of DecodeQuestion's 6-byte pre-check) *)
+Theorem question_complete p index buffer d ls n t c : wf p -> bytes_ok (arr p) -> (12 <= len p)%nat ->
+  u16_at (view p) 4 = Some 1 ->
+  name_at_d (view p) d index ls n -> (d <= 254)%nat -> (wire_len ls <= 256)%nat ->
+  u16_at (view p) n = Some t -> u16_at (view p) (n + 2) = Some c ->
+  decodeQuestion p (Z.of_nat index) buffer = Ok (mkQ (dotted ls) t c, (n + 4)%nat).
+Proof. exact (question_complete_gen p index buffer d ls n t c). Qed.
 
 (* ------------------------------------------------------------------ *)
 (* decodeRRs against the reference: RR layout and what is learned from A / AAAA / CNAME
@@ -553,17 +550,17 @@ Definition msg_within (lim : nat) (msg : bytes) : Prop :=
    back (the merged entry when something was added, nothing otherwise), and the table afterwards is
    the reference table: reference learning merged insert-if-absent into the previous table. *)
 Theorem processdns_table t p lim rm :
-  wf p -> bytes_ok (arr p) -> (lim <= 256)%nat -> (18 <= len p)%nat ->
+  wf p -> bytes_ok (arr p) -> (lim <= 256)%nat ->
   ref_message lim (view p) = Some rm -> msg_within lim (view p) ->
   exists re, fst (processDNS t p) = Ok re /\
              option_map named_of re = fst (ref_process (ctable_of t) rm) /\
              ctable_of (snd (processDNS t p)) = snd (ref_process (ctable_of t) rm).
 Proof.
-  intros Hwf Hok Hlim H18 Hm [Hdq Hwithin]. unfold ref_message in Hm.
+  intros Hwf Hok Hlim Hm [Hdq Hwithin]. unfold ref_message in Hm.
   destruct (u16_at (view p) 4) as [qd|] eqn:Hqd; [|discriminate].
   destruct (u16_at (view p) 6) as [an|] eqn:Han; [|discriminate].
   destruct (N.eqb_spec qd 1) as [->|]; [|discriminate]. cbn [andb] in Hm.
-  destruct (Nat.leb (12) (length (view p))); [|discriminate].
+  destruct (Nat.leb_spec 12 (length (view p))) as [H12|]; [|discriminate]. rewrite view_length in H12 by exact Hwf.
   destruct (ref_question_at lim (view p) 12) as [[q off]|] eqn:Hq; [|discriminate].
   specialize (Hwithin q off an eq_refl eq_refl).
   destruct (ref_rrs lim (N.to_nat an) (view p) off) as [[rrs endoff]|] eqn:Hrr; [|discriminate].
@@ -578,7 +575,7 @@ Proof.
   apply ref_decode_depth in Hdec; [|apply bytes_ok_view; exact Hok].
   unfold processDNS, processDNS_buf. destruct (Nat.ltb_spec (len p) 12); [lia|].
   change 12%Z with (Z.of_nat 12).
-  rewrite (question_complete_gen p 12 _ _ ls n ty cl Hwf Hok ltac:(lia) Hqd Hdec Hdq ltac:(lia) ltac:(lia) Hty Hcl).
+  rewrite (question_complete_gen p 12 _ _ ls n ty cl Hwf Hok ltac:(lia) Hqd Hdec Hdq ltac:(lia) Hty Hcl).
   cbn [q_name]. unfold ref_process. cbn [rm_qname rm_learned]. rewrite tfind_ctable.
   set (e0 := match tbl_find (dotted ls) t with Some e => e | None => new_entry (dotted ls) end).
   assert (He0 : de_name e0 = dotted ls).
@@ -600,12 +597,12 @@ Qed.
 
 Example processdns_table_nonvacuous :
   let p := of_bytes example_response in
-  wf p /\ bytes_okb (arr p) = true /\ (18 <= len p)%nat /\
+  wf p /\ bytes_okb (arr p) = true /\
   (exists rm, ref_message NAME_LIMIT (view p) = Some rm /\ List.length (rm_learned rm) = 3%nat) /\
   msg_within NAME_LIMIT (view p).
 Proof.
   cbv zeta. split; [unfold wf, cap; vm_compute; lia|]. split; [vm_compute; reflexivity|].
-  split; [vm_compute; lia|]. split; [eexists; split; vm_compute; reflexivity|].
+  split; [eexists; split; vm_compute; reflexivity|].
   split; [vm_compute; lia|].
   intros q off an Hq Han. vm_compute in Hq. vm_compute in Han. inversion Hq; inversion Han; subst.
   destruct answers_spec_nonvacuous as (_ & _ & _ & _ & rrs & _ & Hw & _).
